@@ -405,6 +405,19 @@ func c14BuildSystematic() {
 		sb.WriteString("endsolid big\n")
 		add("sys-ascii-big-bad-number", []byte(sb.String()))
 	}
+	// valid binary files whose record count exactly fills k blocks of 2^j bytes (floor(2^j/50) records), and their neighbours
+	for _, n := range []int{81, 163, 164, 327, 655, 1309, 1310, 1311, 2620, 3930} {
+		b := make([]byte, 84+50*n)
+		binary.LittleEndian.PutUint32(b[80:], uint32(n))
+		for i := 0; i < n; i++ {
+			for v := 0; v < 3; v++ {
+				binary.LittleEndian.PutUint32(b[84+50*i+12+12*v:], math.Float32bits(float32(i+v)))
+				binary.LittleEndian.PutUint32(b[84+50*i+12+12*v+4:], math.Float32bits(float32(v*v)))
+				binary.LittleEndian.PutUint32(b[84+50*i+12+12*v+8:], math.Float32bits(float32(i%7)))
+			}
+		}
+		add("sys-bin-block-aligned-count", b)
+	}
 	// files that announce a container or a text encoding in their first bytes (what a loader that sniffs formats would act
 	// on): compressed wrappers with honest, lying and truncated length fields and highly compressible payloads; byte order
 	// marks followed by complete, truncated and ill-formed UTF-16 / UTF-32 text
